@@ -59,14 +59,40 @@ def run_tasks(modname, tasks, nproc=None):
     order = list(range(len(tasks)))
     if cost is not None:
         order.sort(key=lambda i: -cost(tasks[i]))
-    from concurrent.futures import ProcessPoolExecutor
+    from concurrent.futures import ProcessPoolExecutor, as_completed
     # (a worker that dies makes the executor raise BrokenProcessPool instead of hanging)
-    with ProcessPoolExecutor(max_workers=min(nproc, len(tasks)), mp_context=ctx) as pool:
-        rs = list(pool.map(_worker, [(modname, tasks[i]) for i in order], chunksize=1))
     out = [None] * len(tasks)
-    for i, r in zip(order, rs):
-        out[i] = r
-    return out
+    t0 = time.time()
+    tags, bearing = set(), 0
+    pool = ProcessPoolExecutor(max_workers=min(nproc, len(tasks)), mp_context=ctx)
+    try:
+        futs = {pool.submit(_worker, (modname, tasks[i])): i for i in order}
+        for f in as_completed(futs):
+            r = f.result()
+            out[futs[f]] = r
+            if r.get('cex'):
+                bearing += 1
+                tags.update(c.get('tag') for c in r['cex'])
+                # a tree that breaks the property in many places: after 4 minutes with plenty of counterexample classes
+                # in hand, stop exploring and go on to replay them (never taken when there is no counterexample)
+                if time.time() - t0 > EARLY_STOP_S and (len(tags) >= 12 or bearing >= 100):
+                    for g in futs:
+                        g.cancel()
+                    break
+    finally:
+        pool.shutdown(wait=True, cancel_futures=True)
+    for f, i in futs.items():
+        if out[i] is None and f.done() and not f.cancelled():
+            try:
+                out[i] = f.result()
+            except BaseException:  # noqa
+                pass
+    STOPPED[0] = sum(1 for r in out if r is None)
+    return [r for r in out if r is not None]
+
+
+EARLY_STOP_S = float(os.environ.get('VF_EARLY_STOP_S', '240'))
+STOPPED = [0]
 
 
 def jsonable(x):
@@ -138,6 +164,10 @@ def _main(mod, argv=None):
     for r in results:
         for k, v in (r.get('controls') or {}).items():
             controls[k] = controls.get(k, 0) + v
+    if STOPPED[0]:
+        controls['stopped_early_tasks_not_run'] = STOPPED[0]
+        print('# stopped early: counterexamples in %d tasks; %d of %d tasks not run' % (
+            sum(1 for r in results if r.get('cex')), STOPPED[0], len(tasks)))
     with_s = [r['sample'] for r in results if r.get('sample')]
     samples = [with_s[i] for i in sorted({0, len(with_s) // 4, len(with_s) // 2, (3 * len(with_s)) // 4, len(with_s) - 1})] if with_s else []
 
